@@ -1,6 +1,7 @@
 use crate::engine::{Ctx, Fail, Report};
 use serde_json::Value;
 
+pub mod c01;
 pub mod c02;
 pub mod c08;
 pub mod c10;
@@ -15,6 +16,7 @@ pub struct PropDef {
 
 pub fn registry() -> Vec<PropDef> {
     vec![
+        PropDef { id: "C01", run: c01::run, replay: c01::replay },
         PropDef { id: "C02", run: c02::run, replay: c02::replay },
         PropDef { id: "C08", run: c08::run, replay: c08::replay },
         PropDef { id: "C10", run: c10::run, replay: c10::replay },
